@@ -374,7 +374,7 @@ impl Job {
             cases,
             workers: 16,
             caches: vec!["off"],
-            case_timeout_s: 120,
+            case_timeout_s: 240,
             max_shrink_iters: 400,
         }
     }
